@@ -18,6 +18,7 @@ import EEM.Model.Gate
 import EEM.Gen.Guards
 import EEM.Model.Dst
 import EEM.Model.Serial
+import EEM.Model.History
 
 open EEM EEM.Proto EEM.Model
 
@@ -481,6 +482,28 @@ def opDoc (args : List String) : String :=
     | none => "bad-op"
   | _ => "bad-op"
 
+open EEM.Model.History in
+/-- `clusters <keep|assignBack> <m.d.c,m.d.c,...> <m.d;m.d;...> ...`: the table after each predict -/
+def opClusters (args : List String) : String :=
+  match args with
+  | mode :: tbl :: steps =>
+    let mode : Option Mode := match mode with | "keep" => some .keep | "assignBack" => some .assignBack | _ => none
+    let p3 := fun (x : String) => match x.splitOn "." with
+      | [a, b, c] => do pure ((← parseNat a, ← parseNat b), ← parseNat c)
+      | _ => none
+    let p2 := fun (x : String) => match x.splitOn "." with
+      | [a, b] => do pure (← parseNat a, ← parseNat b)
+      | _ => none
+    match mode, (tbl.splitOn ",").mapM p3, steps.mapM (fun st => (st.splitOn ";").mapM p2) with
+    | some mode, some t, some steps =>
+      let showT := fun (t : Table) => ",".intercalate (t.map fun ((a, b), c) => s!"{a}.{b}.{c}")
+      let rec go (t : Table) : List (List (Nat × Nat)) → List String
+        | [] => []
+        | p :: rest => let t' := (predictStep mode t p).2; showT t' :: go t' rest
+      "ok " ++ " | ".intercalate (go t steps)
+    | _, _, _ => "bad-op"
+  | _ => "bad-op"
+
 def step (line : String) : String :=
   match words line with
   | "submodel" :: args => opPredictSubmodel args
@@ -510,6 +533,7 @@ def step (line : String) : String :=
   | "gate" :: args => opGate args
   | "dst" :: args => opDst args
   | "doc" :: args => opDoc args
+  | "clusters" :: args => opClusters args
   | _ => "bad-op"
 
 partial def loop (h : IO.FS.Stream) (out : IO.FS.Stream) : IO Unit := do
